@@ -138,7 +138,12 @@ func (p *Parser) ParseFile(filename string, varPool *VarPool) (*MetaData, []*Bui
 		}
 	}
 
-	for _, f := range pkg.Syntax {
+	// The file being processed goes first: expressions are copied from it, so its own import
+	// names win when another file of the package imports the same package under another name.
+	importFiles := make([]*ast.File, 0, len(pkg.Syntax)+1)
+	importFiles = append(importFiles, targetFile)
+	importFiles = append(importFiles, pkg.Syntax...)
+	for _, f := range importFiles {
 		// Imports of previously generated files must not take part in the allocation of
 		// import names either, or the aliases would depend on leftovers of earlier runs.
 		if f == nil || isKessokuGeneratedFile(f) {
